@@ -54,6 +54,24 @@ chk("C11", "model_checking",
     "explicit enumeration of all file histories up to length 2/3 with single-run reference oracle", "3/C11")
 
 
+chk("C01", "model_checking",
+    "Stateless bounded-exhaustive exploration: compilable-by-construction C/C++ programs (all statement shapes of G_stmt to depth 1 "
+    "quick / 2 thorough in three renderings, each also followed by a second statement; declaration units incl. every spelling order of "
+    "integer specifiers x qualifier position; preprocessor units; expression neighbourhoods) x {defaults, 15 shipped profiles} x every "
+    "single deviation of every option the base run reads (sound read-set pruning: this discharges 'every option singly at every "
+    "enumerated/boundary value'); thorough adds mod x mod / mod x any pairs. Oracle: uncrustify exits 0 and gcc/g++ -S -O1 assembly of "
+    "output == input (compile skipped only when the independent lexer sees identical token streams; audited in thorough).",
+    "gcc/g++ as semantic oracle, C and C++ only (ObjC/Java not compiled); programs up to the stated grammar bounds; <=2 simultaneous deviations",
+    "bounded-exhaustive program x configuration enumeration with compiler object-code oracle", "3/C01")
+chk("C03", "model_checking",
+    "Stateless bounded-exhaustive exploration: programs x 7 (quick) / 12 (thorough) comment kinds x every token boundary (separate "
+    "variants per hole class: code, inside directive, before '#') x {defaults, whitespace projections of shipped profiles} x every single "
+    "deviation over the newline (quick) / newline+indent+align+space (thorough) options the run reads; oracle: comment list of the output "
+    "equals that of the input (count, order, text modulo continuation-line layout) plus the C02 token oracle (literals are tokens).",
+    "independent lexer; comments at holes h = j (mod m) share a variant; comment/string options at default",
+    "bounded-exhaustive comment-placement x configuration enumeration with comment-list and token oracles", "3/C03")
+
+
 def main():
     commits = subprocess.run(["git", "-C", "/repo", "log", "--format=%h %s"], stdout=subprocess.PIPE, text=True).stdout.splitlines()
     hooks = [c.split()[0] for c in commits if c.split(" ", 1)[1].startswith("verif hook:")]
